@@ -503,7 +503,7 @@ example : validateSourceUri (Fs.ofList fsLive) 20 false ["sb".toList] "d/../d/f.
 example : validateSourceUri (Fs.ofList fsLive) 20 true ["sb".toList] "../out/secret.md".toList = .error .outside := by decide
 example : validateSourceUri (Fs.ofList fsLive) 20 true ["sb".toList] "lin/../../out/secret.md".toList = .error .outside := by decide
 example : validateSourceUri (Fs.ofList fsLive) 20 true ["sb".toList] "/out/secret.md".toList = .error .absolute := by decide
-/-- the statements of validate_source_uri, in order (the optional fixed-point test of proposed_fixes/F60.diff is
+/-- the statements of validate_source_uri, in order (the fixed-point test inside the first `try` is
 recognised separately as `Gen.sourceUriFixpoint`) -/
 theorem gen_source_uri_shape : Gen.sourceUriShape.length = 6 ∧
     Gen.sourceUriShape.take 3 = ["base_path = base_path.resolve()",
